@@ -392,9 +392,9 @@ def pydyf_literal(key):
 
 def name_tree_problem(pdf):
     """PDF 32000-1 7.9.6: the keys of a name tree are sorted in lexical byte order (a reader searches it by bisection),
-    and the /Dests tree has one entry per anchor.  /EmbeddedFiles: the listed finding
-    embedded-files-sorted-by-serialised-key (keys ordered by `(` + escaped text + `)` instead of the text; repeated file
-    names) is counted, any other disorder is a problem."""
+    and the /Dests tree has one entry per anchor.  /EmbeddedFiles: sorted by bytes (fixed finding
+    embedded-files-sorted-by-serialised-key); equal file names give equal adjacent keys, which is C18's listed finding
+    embedded-files-duplicate-keys and is not judged here."""
     keys = name_tree_keys(pdf, 'Dests')
     if keys is not None:
         for a, b in zip(keys, keys[1:]):
@@ -402,10 +402,7 @@ def name_tree_problem(pdf):
                 return f'/Dests name tree: key {a!r} is followed by {b!r} (keys must be sorted by bytes, without repeats)'
     keys = name_tree_keys(pdf, 'EmbeddedFiles')
     if keys is not None and keys != sorted(keys):
-        if [pydyf_literal(k) for k in keys] == sorted(pydyf_literal(k) for k in keys):
-            KNOWN_STRUCTURE_SEEN['embedded-files-sorted-by-serialised-key'] += 1
-        else:
-            return f'/EmbeddedFiles name tree: keys {keys!r} are not sorted by bytes'
+        return f'/EmbeddedFiles name tree: keys {keys!r} are not sorted by bytes (PDF 32000-1 7.9.6)'
     return None
 
 
@@ -479,7 +476,7 @@ class C16(PropCheck):
     id = 'C16'
     extractors = (pdf_tags.generate,)
     modules = ('WpModel.Props.C16', 'WpModel.Props.C16File', 'WpModel.Props.C16More', 'WpModel.Props.C16Fonts',
-               'WpModel.Props.C16Cache', 'WpModel.Witness.C16')
+               'WpModel.Props.C16Cache', 'WpModel.Props.C16Gradient', 'WpModel.Witness.C16')
     trusted_base = (
         'modelled, not verified: pdf/stream.py Stream (operator state machine, caches, peepholes, resource '
         'registration), draw/stack.py stacked, the page loop of generate_pdf (Model/PdfStream, Model/PdfPages)',
@@ -681,7 +678,9 @@ class C16(PropCheck):
             'and every resource dictionary key by key, and the calls on each stream must be well bracketed at the API '
             'level (`wb=ok`: the hypothesis of theorem `balanced`) and follow the cache discipline (`cs=ok`: no set_color / '
             'set_alpha between a raw set_color_space / set_color_special / set_state(ca) and the next pop_state — the '
-            'hypothesis of theorem `cache_sound_scoped`). non-trivial = more than one stream or marked content')
+            'hypothesis of theorem `cache_sound_scoped`), and in the final state every gs / Do / sh / pattern name of every '
+            'stream is a key of its own dictionary (`refs=ok`: the conclusion of `resources_defined`). non-trivial = more '
+            'than one stream or marked content')
         sec_skel = run.section(
             'document-skeleton',
             'the same runs against Model/DrawSkeleton: the calls draw_stacking_context makes itself are predicted from '
@@ -689,6 +688,13 @@ class C16(PropCheck):
             'stacking context; what it delegates (draw_background, draw_border, draw_inline_level …) is replayed from '
             'the recording; all streams and resource dictionaries compared. non-trivial = some context has opacity < 1, '
             'a transform, a clip or a nested context')
+        sec_grad = run.section(
+            'document-gradients',
+            'the same runs against Model/GradientDraw: every recorded Gradient.draw (backgrounds, border-image, '
+            'mask-border, list-style-image, content images; solid / opaque / with non-opaque stops; on streams that '
+            'already own shadings) is replaced by the model\'s own calls, predicted from the gradient layout (solid, any '
+            'alpha != 1, scale_y) and the document state; all streams and resource dictionaries compared. non-trivial = '
+            'a gradient with a non-opaque stop, or drawn on a stream that already owns a shading')
         sec_fonts = run.section(
             'document-fonts',
             'the same runs, fonts: the keys of the /Font dictionary of the written PDF, in order (independent reader), '
@@ -741,7 +747,7 @@ class C16(PropCheck):
                 mark = variant == 'pdf/ua-1'
                 hits = api_events(recorder.log)
                 sec_api.add(sx.line('docscript', mark, *[apilog.wire_call(c) for c in recorder.log]),
-                            recorder.show(wb='wb=ok cs=ok'),
+                            recorder.show(wb='wb=ok cs=ok refs=ok'),
                             meta=meta, nontrivial=len(recorder.streams) > 1 or mark,
                             tags=[f'variant:{variant}', f'streams{min(len(recorder.streams) // 5 * 5, 30)}+'] + hits)
                 try:
@@ -749,6 +755,21 @@ class C16(PropCheck):
                     expected = recorder.show(wb='', refs=False).replace('ok  | ', 'ok | ')
                 except apilog.ShapeMismatch as exc:
                     skeleton, expected = sx.line('skeleton', mark), f'shape-mismatch:{exc}'
+                if recorder.gradients:
+                    try:
+                        grad_line = apilog.gradient_line(recorder, mark)
+                        grad_expected = recorder.show(wb='', refs=False).replace('ok  | ', 'ok | ')
+                    except apilog.ShapeMismatch as exc:
+                        grad_line, grad_expected = sx.line('docgrad', mark), f'shape-mismatch:{exc}'
+                    translucent = sum(1 for g in recorder.gradients if g[2] and g[2]['translucent'])
+                    streams_hit = [g[2]['h'] for g in recorder.gradients if g[2] and not g[2]['solid']]
+                    repeated = len(streams_hit) != len(set(streams_hit))
+                    sec_grad.add(grad_line, grad_expected, meta=meta, nontrivial=bool(translucent) or repeated,
+                                 tags=[f'gradients{min(len(recorder.gradients), 5)}'] +
+                                      (['grad:translucent'] if translucent else []) +
+                                      (['grad:same-stream-again'] if repeated else []) +
+                                      (['grad:translucent-on-used-stream'] if translucent and repeated else []) +
+                                      (['grad:solid'] if any(g[2] and g[2]['solid'] for g in recorder.gradients) else []))
                 contexts = sum(1 for e in recorder.tree_events if e[0] == 'ctx-begin')
                 kinds = sorted({f'ctx:{k}' for e in recorder.tree_events if e[0] == 'ctx-begin'
                                 for k in context_kinds(e[2])})
@@ -856,7 +877,8 @@ class C16(PropCheck):
                 return (f'/Dests name tree keys {[bytes.fromhex(k[1:]) for k in keys]} are not sorted by bytes '
                         f'(PDF 32000-1 7.9.6) [options {meta["options"]}]')
             return None
-        if section in ('document-streams', 'document-api', 'document-skeleton', 'document-file', 'document-fonts'):
+        if section in ('document-streams', 'document-api', 'document-skeleton', 'document-file', 'document-fonts',
+                       'document-gradients'):
             # every disagreement is one document rendered again: judge the first few, the rest adds nothing
             self._doc_judged = self.__dict__.get('_doc_judged', 0) + 1
             if self._doc_judged > 8 and self.__dict__.get('_kinds_judged'):
@@ -934,7 +956,6 @@ class C16(PropCheck):
     def finding_replays(self):
         replays = {name: (lambda name=name: crash_replay(name)) for name in CRASH_INPUTS}
         replays['pattern-zero-step'] = pattern_zero_step_replay
-        replays['embedded-files-sorted-by-serialised-key'] = embedded_files_replay
         replays['mcid-in-group-stream'] = mcid_in_group_replay
         return replays
 
@@ -1062,11 +1083,15 @@ KNOWN_CRASHES = {
     ('NotImplementedError', 'draw'): 'colour-to-srgb-not-implemented',
     ('NotImplementedError', 'darken'): 'colour-to-srgb-not-implemented',
     ('NotImplementedError', 'lighten'): 'colour-to-srgb-not-implemented',
+    # the stop positions of a gradient are computed (0 -> 0px, em -> px) for background-image only
+    ('AssertionError', 'process_color_stops>percentage'): 'gradient-stop-length-not-computed',
 }
 
 PAGE_CSS = '<style>@page{size:100px}body{margin:0;font-size:10px}</style>'
 CRASH_INPUTS = {
     'colour-to-srgb-not-implemented': (PAGE_CSS + '<div style="border:4px groove lab(50 20 30)">a</div>', {}),
+    'gradient-stop-length-not-computed': (
+        PAGE_CSS + '<div style="border:3px solid;border-image:linear-gradient(red 0, blue) 1">a</div>', {}),
 }
 
 
@@ -1087,10 +1112,17 @@ def pattern_zero_step_replay():
                0 in (v.extra.get('XStep'), v.extra.get('YStep')) for v in pdf.objects.values())
 
 
-def embedded_files_replay():
-    """Attachments named `a` and `a b`: is the /EmbeddedFiles name array still `a b`, `a` (sorted by `(a b)` < `(a)`)?"""
-    _, data = render_pdf(PAGE_CSS + '<p>a</p>', {'attachments': [['a', '1'], ['a b', '2']]})
-    return name_tree_keys(pdfread.Document(data), 'EmbeddedFiles') == [b'a b', b'a']
+EMBEDDED_OPTS = {'attachments': [['a b', '1'], ['a', '2'], ['aA', '3'], ['a(', '4']]}
+
+
+def embedded_files_regression():
+    """Fixed finding embedded-files-sorted-by-serialised-key: attachments `a b`, `a`, `aA`, `a(` give the keys in byte
+    order a, a b, a(, aA (not `a b` before `a`, nor `a(` after `aA`)."""
+    _, data = render_pdf(PAGE_CSS + '<p>a</p>', EMBEDDED_OPTS)
+    keys = name_tree_keys(pdfread.Document(data), 'EmbeddedFiles')
+    if keys != [b'a', b'a b', b'a(', b'aA']:
+        return f'/EmbeddedFiles keys of the attachments `a b`, `a`, `aA`, `a(` are {keys!r}, sorted by bytes: a, a b, a(, aA'
+    return None
 
 
 def mcid_in_group_replay():
@@ -1145,7 +1177,10 @@ def text_fill_alphas(pdf, ops, cats):
 def crash_signature(exc):
     import traceback
     frames = [f for f in traceback.extract_tb(exc.__traceback__) if '/weasyprint/' in f.filename]
-    return (type(exc).__name__, frames[-1].name if frames else '?')
+    name = frames[-1].name if frames else '?'
+    if name == 'percentage' and len(frames) > 1:       # a shared helper: the caller says which computation failed
+        name = f'{frames[-2].name}>percentage'
+    return (type(exc).__name__, name)
 
 
 def problem_kind(what):
@@ -1198,6 +1233,7 @@ REGRESSION_INPUTS = {
         {'uncompressed_pdf': True}, None),
     'alpha-state-stale-cache': (ALPHA_STATE_HTML, {'uncompressed_pdf': True}, alpha_state_regression),
     'dests-names-unsorted': (DESTS_HTML, {}, dests_regression),
+    'embedded-files-sorted-by-serialised-key': (PAGE_CSS + '<p>a</p>', EMBEDDED_OPTS, embedded_files_regression),
     'emc-on-group-stream': (
         PAGE_CSS + '<div style="opacity:.5;transform:scale(0)">a</div><p>b</p>', {'pdf_variant': 'pdf/ua-1'}, None),
 }
@@ -1427,12 +1463,16 @@ MANIFEST = {
             '(xref_offsets_correct), the Lean file checker is sound and accepts everything the writer model produces '
             '(check_file_sound, checker_accepts_writer); Stream can only raise the unmatched-pop assertion '
             '(stream_raises_only_assert); sub-resource dictionaries are never shared (resources_unshared); /Dests keys '
-            'sorted by bytes for all anchor names, one key per anchor (names_sorted); /EmbeddedFiles keys sorted when no '
-            'file name holds a byte <= `)` or a backslash (embedded_files_sorted_partial; full statement refuted: finding '
-            'embedded-files-sorted-by-serialised-key); every font draw_first_line names by Tf is registered and every '
+            'sorted by bytes for all anchor names, one key per anchor, distinct names give distinct strictly increasing '
+            'keys (names_sorted, names_strictly_sorted); /EmbeddedFiles keys sorted by '
+            'bytes for all file names (embedded_files_sorted); every font draw_first_line names by Tf is registered and every '
             'registered font — with or without a drawn glyph — is a key of /Font, no KeyError (text_fonts_defined, '
             'fonts_defined, fonts_total); caches sound around the raw setters under the stacked discipline the recorded '
-            'runs follow (cache_sound_scoped).',
+            'runs follow (cache_sound_scoped); Gradient.draw on any stream of any '
+            'document state keeps every name defined, the soft-mask group names its own shading '
+            '(gradient_resources_defined, document_resources_defined: the `refs=ok` flag of the recorded runs); the /W '
+            'array of a CID font decodes back to the width table and the /CIDSet bits are the used glyph ids '
+            '(w_array_round_trip, cid_set_bits).',
     'note': 'pydyf object syntax / xref / trailer / compression, font embedding (fontTools) and XMP metadata are checked '
             'only by the independent reader (py/harness/pdfread.py) on generated documents, not modelled. Skeleton '
             'theorem: delegated drawing restricted to calls on the current stream (streams created by images / '
